@@ -14,6 +14,34 @@ import (
 )
 
 func (o *Obligation) render(withModel bool) string {
+	s, _ := o.renderInst(withModel, false)
+	return s
+}
+
+// renderInst renders the query; with inst it adds generator-side quantifier instances (inst.go)
+// and reports whether that changed anything.
+func (o *Obligation) renderInst(withModel, inst bool) (string, bool) {
+	return o.renderVariant(withModel, inst, false)
+}
+
+// renderVariant: weaken additionally replaces positively occurring quantified hypotheses by their
+// instances and path-condition definitions by implications (a weaker hypothesis set: only an
+// "unsat" answer means anything).
+func (o *Obligation) renderVariant(withModel, inst, weaken bool) (string, bool) {
+	return o.renderVariantT(withModel, inst, weaken, false)
+}
+
+func (o *Obligation) renderVariantT(withModel, inst, weaken, small bool) (string, bool) {
+	tier := 2
+	if small {
+		tier = 1
+	}
+	return o.renderTier(withModel, inst, weaken, tier)
+}
+
+// renderTier: tier 0 = no instantiation terms at all (big quantified hypotheses are simply
+// dropped in the weakened variant), 1 = skolems and loop counters, 2 = also path index terms.
+func (o *Obligation) renderTier(withModel, inst, weaken bool, tier int) (string, bool) {
 	var sb strings.Builder
 	sb.WriteString("; obligation " + o.Name + "\n; " + o.Pos + "\n")
 	if o.Src != "" {
@@ -28,14 +56,89 @@ func (o *Obligation) render(withModel bool) string {
 	for _, d := range x.decls[:o.nDecl] {
 		sb.WriteString(d + "\n")
 	}
-	for _, a := range x.asserts[:o.nAssert] {
+	keep, needed := o.slice()
+	goal := o.goal
+	var terms, allTerms []string
+	doInst := false
+	if inst && o.Expect != "sat" && !noInst {
+		if strings.Contains(goal, "!q") {
+			doInst = true
+		} else {
+			for i, a := range x.asserts[:o.nAssert] {
+				if (keep == nil || keep[i]) && strings.Contains(a, "!q") {
+					doInst = true
+					break
+				}
+			}
+		}
+	}
+	if doInst {
+		var sks []string
+		goal, sks = skolemizeGoal(goal)
+		for _, s := range sks {
+			sb.WriteString("(declare-const " + s + " Int)\n")
+		}
+		allTerms = o.instTerms(sks, needed, false)
+		if tier > 0 && tier < 3 {
+			terms = o.instTerms(sks, needed, tier == 1)
+		}
+	}
+	ic := &instCtx{budget: 3000000, weaken: weaken}
+	for _, t := range terms {
+		if n := parseSx(t); n != nil {
+			ic.terms = append(ic.terms, n)
+		}
+	}
+	for _, t := range allTerms {
+		if n := parseSx(t); n != nil {
+			ic.all = append(ic.all, n)
+		}
+	}
+	isBool := x.isBoolSym
+	if doInst && tier == 3 {
+		var fs []*sx
+		for i, a := range x.asserts[:o.nAssert] {
+			if keep != nil && !keep[i] {
+				continue
+			}
+			if !strings.Contains(a, "select") && !strings.Contains(a, "store") && !strings.Contains(a, "H") {
+				continue
+			}
+			body := a
+			if k := strings.LastIndex(a, ") ;"); k >= 0 && !strings.Contains(a[k:], "|") {
+				body = a[:k+1]
+			}
+			if n := parseSx(body); n != nil {
+				fs = append(fs, n.simplify())
+			}
+		}
+		if n := parseSx(goal); n != nil {
+			fs = append(fs, n.simplify())
+		}
+		ic.perVar = matchInstances(fs, nil)
+	}
+	for i, a := range x.asserts[:o.nAssert] {
 		if o.Expect == "sat" && strings.HasSuffix(a, ";defq") {
 			continue
+		}
+		if keep != nil && !keep[i] {
+			continue
+		}
+		if doInst {
+			a = ic.instantiateAssert(a, isBool)
 		}
 		sb.WriteString(a + "\n")
 	}
 	sb.WriteString("(assert " + o.pc + ")\n")
-	sb.WriteString("(assert (not " + o.goal + "))\n")
+	if doInst && strings.Contains(goal, "!q") {
+		if n := parseSx(goal); n != nil {
+			sav := ic.weaken
+			ic.weaken = false
+			goal = ic.walk(n, -1).String()
+			ic.weaken = sav
+		}
+	}
+	sb.WriteString("(assert (not " + goal + "))\n")
 	sb.WriteString("(check-sat)\n")
 	if withModel {
 		if len(x.modelTerms) > 0 {
@@ -48,8 +151,130 @@ func (o *Obligation) render(withModel bool) string {
 			sb.WriteString("(get-value (" + strings.Join(x.paramNames, " ") + "))\n")
 		}
 	}
-	return sb.String()
+	return sb.String(), doInst
 }
+
+// smtSymbols returns the identifiers of an SMT-LIB fragment (|quoted| symbols as one token).
+func smtSymbols(a string) []string {
+	var out []string
+	i := 0
+	for i < len(a) {
+		c := a[i]
+		switch {
+		case c == '|':
+			j := strings.IndexByte(a[i+1:], '|')
+			if j < 0 {
+				return out
+			}
+			out = append(out, a[i:i+j+2])
+			i += j + 2
+		case c == ';':
+			return out
+		case c == '(' || c == ')' || c == ' ' || c == '\t' || c == '\n':
+			i++
+		default:
+			j := i
+			for j < len(a) && !strings.ContainsRune("() \t\n|", rune(a[j])) {
+				j++
+			}
+			tok := a[i:j]
+			if !(tok[0] >= '0' && tok[0] <= '9') && tok[0] != '-' && tok[0] != '+' && tok[0] != '=' && tok[0] != '<' && tok[0] != '>' && tok[0] != '*' && tok[0] != ':' {
+				out = append(out, tok)
+			}
+			i = j
+		}
+	}
+	return out
+}
+
+// slice computes the cone of influence of a proof obligation: the definitions (assert (= sym e))
+// of symbols the goal and its path condition depend on, plus every other hypothesis that mentions
+// a fresh symbol of the cone (or no fresh symbol at all).  Dropping hypotheses can only make a
+// proof harder, never unsound; reachability covers (Expect "sat") keep everything, since for them
+// a dropped contradictory hypothesis would hide vacuity.
+func (o *Obligation) slice() ([]bool, map[string]bool) {
+	if o.Expect == "sat" || noSlice {
+		return nil, nil
+	}
+	x := o.x
+	x.symMu.Lock()
+	for len(x.assertSyms) < o.nAssert {
+		a := x.asserts[len(x.assertSyms)]
+		syms := smtSymbols(a)
+		info := assertInfo{}
+		// "(assert (= SYM ...": definition of a declared constant
+		if len(syms) >= 2 && syms[0] == "assert" && strings.HasPrefix(a, "(assert (= "+syms[1]+" ") && x.declared[syms[1]] {
+			info.def = syms[1]
+			info.syms = syms[2:]
+		} else if m := reCondDef.FindStringSubmatch(a); m != nil && x.declared[m[2]] {
+			info.def = m[2]
+			info.syms = syms[1:]
+		} else if m := reArrDef.FindStringSubmatch(a); m != nil && x.declared[m[1]] {
+			info.def = m[1]
+			info.syms = syms[1:]
+		} else {
+			info.syms = syms[1:]
+		}
+		x.assertSyms = append(x.assertSyms, info)
+	}
+	infos := x.assertSyms[:o.nAssert]
+	x.symMu.Unlock()
+	needed := map[string]bool{}
+	for _, s := range smtSymbols(o.pc) {
+		needed[s] = true
+	}
+	for _, s := range smtSymbols(o.goal) {
+		needed[s] = true
+	}
+	keep := make([]bool, o.nAssert)
+	for changed := true; changed; {
+		changed = false
+		for i := o.nAssert - 1; i >= 0; i-- {
+			if keep[i] {
+				continue
+			}
+			in := infos[i]
+			take := false
+			if in.def != "" {
+				take = needed[in.def]
+			} else {
+				anyFresh := false
+				for _, s := range in.syms {
+					if strings.Contains(s, "!") && x.declared[s] {
+						anyFresh = true
+						if needed[s] {
+							take = true
+							break
+						}
+					}
+				}
+				if !anyFresh {
+					take = true
+				}
+			}
+			if take {
+				keep[i] = true
+				changed = true
+				for _, s := range in.syms {
+					needed[s] = true
+				}
+			}
+		}
+	}
+	return keep, needed
+}
+
+var reCondDef = regexp.MustCompile(`^\(assert \(=> (\S+) \(= (\|[^|]*\||[^\s()]+) `)
+var reArrDef = regexp.MustCompile(`^\(assert \(forall \(\(\S+ Int\)\) \(! \(= \(select (\|[^|]*\||[^\s()]+) `)
+
+var reWrapDef = regexp.MustCompile(`\(define-fun (wrap_[iu]\d+) \(\(x Int\)\) Int [^\n]*`)
+
+type assertInfo struct {
+	def  string
+	syms []string
+}
+
+var noSlice = os.Getenv("GOVC_NOSLICE") != ""
 
 type solverSpec struct {
 	name string
@@ -123,6 +348,59 @@ func (o *Obligation) solve(dir string, timeoutS int, thorough bool) {
 		return
 	}
 	o.SMTPath = path
+	// Query variants (see inst.go).  "exact" variants are equivalent to the plain query: both
+	// answers count.  The others are weakenings of the hypothesis set (quantified hypotheses
+	// replaced by instances, path-condition definitions kept as implications, machine-integer
+	// wrap functions left uninterpreted): only "unsat" carries over, anything else is discarded.
+	type variant struct {
+		name  string
+		path  string
+		exact bool
+	}
+	var variants []variant
+	if o.Expect == "unsat" {
+		write := func(name, txt string, exact bool) {
+			vp := filepath.Join(dir, fname+"."+name+".smt2")
+			if err := os.WriteFile(vp, []byte(txt), 0o644); err == nil {
+				variants = append(variants, variant{name, vp, exact})
+			}
+		}
+		abs := func(txt string) string {
+			return reWrapDef.ReplaceAllString(txt, "(declare-fun $1 (Int) Int)")
+		}
+		itxt, changed := o.renderTier(true, true, false, 3)
+		if changed {
+			write("inst", itxt, true)
+			w0, _ := o.renderTier(true, true, true, 0)
+			ws, _ := o.renderTier(true, true, true, 3)
+			wl, _ := o.renderTier(true, true, true, 2)
+			hasWrap := strings.Contains(ws, "(wrap_")
+			if hasWrap {
+				write("weak0abs", abs(w0), false)
+			} else {
+				write("weak0", w0, false)
+			}
+			if hasWrap {
+				write("weakMabs", abs(ws), false)
+			}
+			write("weakM", ws, false)
+			if wl != ws {
+				if hasWrap {
+					write("weak2abs", abs(wl), false)
+				}
+				write("weak2", wl, false)
+			}
+		} else if b, err := os.ReadFile(path); err == nil && bytes.Contains(b, []byte("(wrap_")) {
+			write("abs", abs(string(b)), false)
+		}
+	}
+	defer func() {
+		for _, vr := range variants {
+			if !keepSMT || o.Status == "proved" {
+				os.Remove(vr.path)
+			}
+		}
+	}()
 	var verdicts []string
 	final := ""
 	record := func(name, v, out string) bool {
@@ -158,6 +436,13 @@ func (o *Obligation) solve(dir string, timeoutS int, thorough bool) {
 		}
 		return true
 	}
+	recordV := func(vr variant, solver, v, out string) bool {
+		if vr.exact || v == "unsat" {
+			return record(solver+"+"+vr.name, v, out)
+		}
+		verdicts = append(verdicts, solver+"+"+vr.name+"="+v+"(ignored)")
+		return false
+	}
 	if thorough {
 		for _, s := range solvers {
 			v, out, secs := runSolver(s, path, timeoutS)
@@ -167,32 +452,81 @@ func (o *Obligation) solve(dir string, timeoutS int, thorough bool) {
 				return
 			}
 		}
+		for _, vr := range variants {
+			if !vr.exact && final != "" {
+				continue
+			}
+			ss := []solverSpec{solvers[0]}
+			if vr.exact {
+				ss = append(ss, solvers[2])
+			}
+			for _, s := range ss {
+				v, out, secs := runSolver(s, vr.path, timeoutS)
+				o.Secs += secs
+				recordV(vr, s.name, v, out)
+				if strings.HasPrefix(o.Output, "SOLVER DISAGREEMENT") {
+					return
+				}
+			}
+		}
 	} else {
-		// quick tier: first a short attempt with the default configuration, then race the two z3
-		// arithmetic configurations, then the remaining solvers one after the other
+		// quick tier: short sequential attempts (plain query first), then a race of every variant
+		// and the two z3 arithmetic configurations, then the remaining solvers
 		v, out, secs := runSolver(solvers[0], path, 2)
 		o.Secs += secs
-		if !record(solvers[0].name, v, out) {
+		decided := record(solvers[0].name, v, out)
+		for _, vr := range variants {
+			if decided {
+				break
+			}
+			v, out, secs := runSolver(solvers[0], vr.path, 4)
+			o.Secs += secs
+			decided = recordV(vr, solvers[0].name, v, out)
+		}
+		if !decided {
 			type res struct {
+				vr           *variant
 				name, v, out string
 				secs         float64
 			}
-			ch := make(chan res, 2)
+			n := 2 + len(variants)
+			ch := make(chan res, n)
 			for _, s := range solvers[:2] {
 				s := s
 				go func() {
 					v, out, secs := runSolver(s, path, timeoutS)
-					ch <- res{s.name, v, out, secs}
+					ch <- res{nil, s.name, v, out, secs}
 				}()
 			}
-			decided := false
-			for i := 0; i < 2; i++ {
+			for i := range variants {
+				vr := &variants[i]
+				go func() {
+					v, out, secs := runSolver(solvers[0], vr.path, timeoutS)
+					ch <- res{vr, solvers[0].name, v, out, secs}
+				}()
+			}
+			for i := 0; i < n; i++ {
 				r := <-ch
 				o.Secs += r.secs
-				if !decided && record(r.name, r.v, r.out) {
-					decided = true
-					// the other process keeps running until its own timeout; its answer is ignored
+				if r.vr == nil {
+					decided = record(r.name, r.v, r.out)
+				} else {
+					decided = recordV(*r.vr, r.name, r.v, r.out)
+				}
+				if decided {
+					// the other processes run until their own timeout; their answers are ignored
 					break
+				}
+			}
+			if !decided {
+				for _, vr := range variants {
+					if vr.exact {
+						v, out, secs := runSolver(solvers[2], vr.path, timeoutS)
+						o.Secs += secs
+						if decided = recordV(vr, solvers[2].name, v, out); decided {
+							break
+						}
+					}
 				}
 			}
 			if !decided {
